@@ -754,18 +754,28 @@ class Gen:
         return [sel, {"t": "append", "src": {"k": "pipe", "pipe": bottom}}], nsc
 
     # -- pipelines
-    def pipeline(self, n, must_know_frame=False):
+    def pipeline(self, n, must_know_frame=False, forced=None):
+        """forced: list of transform kinds to generate in this order (instead of weighted choice);
+        the pipeline position after each forced kind is recorded in self.forced_at."""
         r = self.rng
         t, sc = self.t_from()
         pipe = [t]
         self.cuts = []
+        self.forced_at = []
         w = self.p["weights"]
         kinds = list(w.keys())
         tries = 0
-        while len(pipe) - 1 < n and tries < 40:
+        forced = list(forced) if forced else None
+        while (forced or (forced is None and len(pipe) - 1 < n)) and tries < 40:
             tries += 1
-            k = r.choices(kinds, [w[x] for x in kinds])[0]
-            if k == "take" and not sc.ordered and r.random() < 0.85:
+            if forced is not None:
+                k = forced[0]
+                if tries % 6 == 0:
+                    forced.pop(0)          # this kind cannot be generated here: skip it
+                    continue
+            else:
+                k = r.choices(kinds, [w[x] for x in kinds])[0]
+            if forced is None and k == "take" and not sc.ordered and r.random() < 0.85:
                 k = "sort"
             res = getattr(self, "t_" + k)(sc) if k != "window" else self.t_window_derive(sc)
             if res is None:
@@ -775,7 +785,10 @@ class Gen:
                 ts = [ts]
             pipe.extend(ts)
             sc = nsc
-            if k == "sort" and r.random() < 0.5:
+            if forced is not None:
+                forced.pop(0)
+                self.forced_at.append(len(pipe))
+            elif k == "sort" and r.random() < 0.5:
                 tt, sc = self.t_take(sc)
                 pipe.append(tt)
             names = [c.name for c in sc.cols]
@@ -818,6 +831,9 @@ PROFILES = {
     "window": {"weights": {"select": 1.0, "derive": 1.0, "filter": 1.5, "sort": 1.5, "take": 0.5, "join": 0.6,
                            "aggregate": 0.1, "group": 1.5, "append": 0.0, "window": 4.0},
                "group_agg": 0.2, "group_take": 0.1, "max_len": 5},
+    "boundary": {"weights": {"select": 1.0, "derive": 1.5, "filter": 1.5, "sort": 1.5, "take": 1.0, "join": 1.0,
+                             "aggregate": 0.3, "group": 1.0, "append": 0.0, "window": 1.5},
+                 "group_agg": 0.4, "group_take": 0.4, "n_lets": [1.0, 0, 0, 0], "use_let": 0.0},
     "project": {"weights": {"select": 4.0, "derive": 2.5, "filter": 1.0, "sort": 1.5, "take": 1.0, "join": 2.0,
                             "aggregate": 0.5, "group": 1.5, "append": 0.5, "window": 0.0}},
 }
@@ -826,6 +842,31 @@ PROFILES = {
 def random_program(rng, profile="core"):
     g = Gen(rng, PROFILES.get(profile, {}))
     return g.program()
+
+
+BOUNDARY_END = ["take", "sort", "take", "aggregate", "group", "join", "derive", "filter", "window", "select"]
+BOUNDARY_START = ["window", "window", "group", "derive", "filter", "sort", "take", "aggregate", "join", "select"]
+
+
+def boundary_program(rng):
+    """A program built around one pipeline boundary: from | select (frame known) | 0-2 random
+    transforms | END | START | 0-1 random transforms, for every pairing of the kind that ends a
+    prefix with the kind that starts the suffix. prog["boundary_at"] is the position between them."""
+    g = Gen(rng, PROFILES["boundary"])
+    w = g.p["weights"]
+    kinds = [k for k in w if w[k] > 0]
+    pre = [rng.choices(kinds, [w[k] for k in kinds])[0] for _ in range(rng.randint(0, 2))]
+    end, start = rng.choice(BOUNDARY_END), rng.choice(BOUNDARY_START)
+    if end == "take":
+        pre.append("sort")
+    post = [rng.choices(kinds, [w[k] for k in kinds])[0] for _ in range(rng.randint(0, 1))]
+    forced = ["select"] + pre + [end, start] + post
+    main, sc = g.pipeline(0, forced=forced)
+    at = None
+    # position after END = forced_at entry number len(["select"]+pre+[end]) if nothing was skipped
+    if len(g.forced_at) == len(forced):
+        at = g.forced_at[len(pre) + 1]
+    return {"lets": [], "main": main, "cuts": g.cuts, "boundary_at": at, "boundary": [end, start]}
 
 
 def random_program_text(rng, profile="core"):
